@@ -1,0 +1,125 @@
+//go:build verif
+
+package larking
+
+// Verification-only accessors. Compiled only with `-tags verif`; add-only: no
+// existing line of the package is touched.
+
+import (
+	"fmt"
+	"sort"
+	"strings"
+	"time"
+
+	"google.golang.org/grpc"
+	"google.golang.org/protobuf/reflect/protoreflect"
+)
+
+// VerifRegisterService is registerService without log.Fatalf.
+func (m *Mux) VerifRegisterService(sd *grpc.ServiceDesc, ss interface{}) error {
+	return m.registerService(sd, ss)
+}
+
+// VerifSnapshot returns the currently published routing snapshot (opaque).
+func (m *Mux) VerifSnapshot() any { return m.loadState() }
+
+// VerifFingerprint returns a structural, order-independent fingerprint of a
+// snapshot previously returned by VerifSnapshot.
+func VerifFingerprint(snap any) string {
+	s, _ := snap.(*state)
+	if s == nil {
+		return "nil"
+	}
+	var b strings.Builder
+	b.WriteString("path=")
+	verifPath(&b, s.path)
+	b.WriteString(";handlers=")
+	names := make([]string, 0, len(s.handlers))
+	for k := range s.handlers {
+		names = append(names, k)
+	}
+	sort.Strings(names)
+	for _, k := range names {
+		fmt.Fprintf(&b, "%s[", k)
+		for _, h := range s.handlers[k] {
+			fmt.Fprintf(&b, "%p,", h)
+		}
+		b.WriteString("]")
+	}
+	b.WriteString(";conns=")
+	var conns []string
+	for cc, cl := range s.conns {
+		var hs []string
+		for _, h := range cl.handlers {
+			hs = append(hs, fmt.Sprintf("%s@%p", h.method, h))
+		}
+		sort.Strings(hs)
+		conns = append(conns, fmt.Sprintf("%p:%x:%s", cc, cl.fdHash, strings.Join(hs, ",")))
+	}
+	sort.Strings(conns)
+	b.WriteString(strings.Join(conns, "|"))
+	return b.String()
+}
+
+func verifFields(fds []protoreflect.FieldDescriptor) string {
+	var s []string
+	for _, fd := range fds {
+		s = append(s, string(fd.FullName()))
+	}
+	return strings.Join(s, ">")
+}
+
+func verifMethod(b *strings.Builder, m *method) {
+	if m == nil {
+		b.WriteString("<nil>")
+		return
+	}
+	fmt.Fprintf(b, "%s(%s|body=%s|hasBody=%v|resp=%s|vars=", m.name, m.desc.FullName(), verifFields(m.body), m.hasBody, verifFields(m.resp))
+	for _, v := range m.vars {
+		b.WriteString(verifFields(v))
+		b.WriteString(",")
+	}
+	b.WriteString(")")
+}
+
+func verifPath(b *strings.Builder, p *path) {
+	if p == nil {
+		b.WriteString("<nil>")
+		return
+	}
+	b.WriteString("{")
+	segs := make([]string, 0, len(p.segments))
+	for k := range p.segments {
+		segs = append(segs, k)
+	}
+	sort.Strings(segs)
+	for _, k := range segs {
+		fmt.Fprintf(b, "seg %q:", k)
+		verifPath(b, p.segments[k])
+	}
+	// Variables in their stored order: lookup order is part of the routing behaviour.
+	for _, v := range p.variables {
+		fmt.Fprintf(b, "var %q:", v.name)
+		verifPath(b, v.next)
+	}
+	verbs := make([]string, 0, len(p.methods))
+	for k := range p.methods {
+		verbs = append(verbs, k)
+	}
+	sort.Strings(verbs)
+	for _, k := range verbs {
+		fmt.Fprintf(b, "verb %s:", k)
+		verifMethod(b, p.methods[k])
+	}
+	if p.methodAll != nil {
+		b.WriteString("verb *:")
+		verifMethod(b, p.methodAll)
+	}
+	b.WriteString("}")
+}
+
+// VerifHTTPBodyCodec returns the built-in google.api.HttpBody stream codec.
+func VerifHTTPBodyCodec() StreamCodec { return codecHTTPBody{} }
+
+// VerifDecodeTimeout exposes the grpc-timeout parser.
+func VerifDecodeTimeout(s string) (time.Duration, error) { return decodeTimeout(s) }
